@@ -32,6 +32,7 @@ ParsedDurationType = float
 __SDPI_REGEX_DURATION__ = re.compile(
     r'^PT(?:(?P<hours>\d+)H)?(?:(?P<minutes>\d+)M)?'
     r'(?:(?P<seconds>\d+)(?:\.(?P<fraction>\d+))?S)?(?<!PT)$',
+    re.ASCII,  # \d: the digits 0-9 only, like the lexical space of xsd:duration
 )
 
 
@@ -140,6 +141,7 @@ __DATETIME_PATTERN__: typing.Final[re.Pattern[str]] = re.compile(
     rf')?'
     rf')?'
     rf'{__TIMEZONE_FRAG__}?$',
+    re.ASCII,  # \d: the digits 0-9 only, like the lexical spaces of the xsd date / time types
 )
 
 MAX_MONTH: typing.Final[int] = 12
